@@ -3,7 +3,7 @@
 # usage: run_seeded.sh [id ...]   (default: all of /verif/seeded)
 set -u
 cd /verif
-ids=${@:-$(ls seeded | grep -v RESULTS)}
+ids=${@:-$(ls seeded | grep -v "RESULTS\|THOROUGH")}
 git -C /repo diff --quiet || { echo "/repo has uncommitted changes"; exit 2; }
 for id in $ids; do
   prop=${id%%-*}
